@@ -19,7 +19,7 @@ from ..cfg import cfg_of
 from ..flow import describe_path
 from ..linexpr import Env, Lin, NONE, Seq, fresh, local_edges, loop_heads, paths_from, run_steps, segments
 from ..model import AnchorError, Func, UnknownIdiom, dotted, short, unparse
-from .c07_helpers import (ASGI, BUDGET, WSGI, Inliner, Verdicts, asgi_constructor, asgi_initial_position, asgi_keys, asgi_loops,
+from .c07_helpers import (ASGI, BUDGET, WSGI, Inliner, Verdicts, asgi_constructor, asgi_drained, asgi_initial_position, asgi_keys, asgi_loops,
                           asgi_positions, lazy_wrapping, require_attrs, run_steps_inl)
 from .common import ancestors, enclosing_map, walk_self
 
@@ -333,6 +333,9 @@ def r3_accounting(run):
     p = run.project
     pending = []
     modes = {}
+    v = Verdicts(run)
+    forced = set()
+    _budget_writes(run, w, v, forced)
     for f, sites in _reader_funcs(w):
         cfg = cfg_of(f, p)
         run.use_cfg(cfg)
@@ -340,6 +343,9 @@ def r3_accounting(run):
         for env, reads in _exec_reader(w, f, cfg, lambda env, rem: True):
             if not reads:
                 continue
+            final = env.eval(_BUDGET_E)
+            if f.qual in forced and isinstance(final, Lin) and final.is_const:
+                continue            # ends in a forced store: judged by _budget_writes, not a deduction
             if len(reads) > 1:
                 raise UnknownIdiom('%s: several raw reads on one path' % f.qual)
             call, arg, res = reads[0]
@@ -391,7 +397,6 @@ def r3_accounting(run):
             elif how and how <= {'request', 'result'}:
                 run.ok(what + ' (%s contract of io.%s, deduction by %s)' % (contract, meth, '/'.join(sorted(how))), f.loc(c), c)
     # decisions elsewhere in the class about how much has been consumed
-    v = Verdicts(run)
     seen = set()
     _consumption_decisions(run, w, v, seen)
     _exhaust_exits(run, w, v, seen)
@@ -778,6 +783,245 @@ def _exhaust_exits(run, w, v, seen):
 
 
 # ---------------------------------------------------------------------------
+# R3 (continued): who may write the budget, and when it may be forced to 0
+# ---------------------------------------------------------------------------
+
+def _writes_budget(f) -> bool:
+    return any(isinstance(x, ast.Attribute) and dotted(x) == BUDGET and isinstance(x.ctx, (ast.Store, ast.Del)) for x in walk_self(f.node))
+
+
+def _bind(p, callee, call, name, env):
+    """The value the call hands to parameter `name` of the method `callee` (None when it cannot be told)."""
+    ps = [a for a in callee.params() if a != 'self']
+    if name not in ps or any(isinstance(a, ast.Starred) for a in call.args) or any(k.arg is None for k in call.keywords):
+        return None
+    for k in call.keywords:
+        if k.arg == name:
+            return env.eval(k.value)
+    i = ps.index(name)
+    if i < len(call.args):
+        return env.eval(call.args[i])
+    a = callee.node.args
+    pos = a.posonlyargs + a.args
+    defaults = dict(zip([x.arg for x in pos[len(pos) - len(a.defaults):]], a.defaults))
+    return env.eval(defaults[name]) if name in defaults else None
+
+
+def _hands_size_on(w, t, depth=0) -> bool:
+    """Does method `t` hand its size parameter unchanged to the read it performs (so that t(0) asks the raw stream for 0 bytes)?
+    A gate does by R2 (the `== 0` cell is exact)."""
+    if t.qual in w.gates:
+        return True
+    try:
+        sp = _size_param(w, t)
+    except UnknownIdiom:
+        return False
+    if sp is None or depth > 2 or any(isinstance(n, ast.Name) and n.id == sp and isinstance(n.ctx, ast.Store) for n in walk_self(t.node)):
+        return False
+    for c in walk_self(t.node):
+        if not (isinstance(c, ast.Call) and w.consuming(t, c)):
+            continue
+        if w.raw_method(c.func) in CONTRACT:
+            if len(c.args) == 1 and not c.keywords and isinstance(c.args[0], ast.Name) and c.args[0].id == sp:
+                return True
+            continue
+        u = w._callee(t, c)
+        if isinstance(u, Func) and _hands_size_on(w, u, depth + 1):
+            try:
+                usp = _size_param(w, u)
+            except UnknownIdiom:
+                continue
+            ups = [a for a in u.params() if a != 'self']
+            if usp in ups:
+                i = ups.index(usp)
+                arg = next((k.value for k in c.keywords if k.arg == usp), c.args[i] if i < len(c.args) else None)
+                if isinstance(arg, ast.Name) and arg.id == sp:
+                    return True
+    return False
+
+
+def _budget_writes(run, w, v, forced):
+    """Every method of the wrapper but the constructor: the budget changes only through the accounted deduction of a read
+    (judged above), and it is FORCED to 0 only where the facts on the path prove that a read which was asked for something
+    other than 0 bytes came back empty -- `read(0)` returns b'' with the whole body still to come, so an unconditional or
+    `not data`-only guarded reset reports end-of-stream and loses the body.  `forced` collects the methods in which a
+    forced store was judged (their paths are not judged a second time as deductions)."""
+    p = run.project
+    for f in w.methods:
+        if any(isinstance(x, ast.Constant) and x.value == BUDGET.split('.')[1] for x in walk_self(f.node)):
+            raise UnknownIdiom('%s: the budget attribute is named in a string (reflective access?)' % f.qual)
+    writers = {f.qual for f in w.methods if _writes_budget(f)}
+
+    def self_callees(f):
+        for c in walk_self(f.node):
+            t = None
+            if isinstance(c, ast.Call) and isinstance(c.func, ast.Attribute) and dotted(c.func.value) == 'self':
+                t = w.cls.methods.get(c.func.attr)
+            elif isinstance(c, ast.Attribute) and isinstance(c.ctx, ast.Load) and dotted(c.value) == 'self':
+                t = w.cls.methods.get(c.attr)
+                t = t if t is not None and t.is_property() else None
+            if t is not None and t.name != '__init__':
+                yield t
+
+    # helpers that are looked through carry their writes into their callers
+    changed = True
+    while changed:
+        changed = False
+        for f in w.methods:
+            if f.qual not in writers and any(t.qual in writers and w.inliner._inlinable(t) for t in self_callees(f)):
+                writers.add(f.qual)
+                changed = True
+    called = {t.qual for f in w.methods for t in self_callees(f)}
+    at_callers = {q for q in writers if q in called and w.inliner._inlinable(p.func(q))}      # judged where they are called
+    what = 'the budget is forced to 0 only after a read that was asked for more than 0 bytes came back empty'
+    swept = []
+    for f in sorted(w.methods, key=lambda f: f.qual):
+        if f.qual not in writers or f.qual in at_callers:
+            continue
+        swept.append(f.name)
+        cfg = cfg_of(f, p)
+        run.use_cfg(cfg)
+        is_reader = bool(w.read_sites(f))
+        gate = w.gates.get(f.qual)
+        sp = _size_param(w, f)
+        heads = loop_heads(cfg)
+        if heads and sp and any(isinstance(n, ast.Name) and n.id == sp and isinstance(n.ctx, ast.Store) for n in walk_self(f.node)):
+            raise UnknownIdiom('%s: the size parameter is reassigned in a function with loops' % f.qual)
+
+        def set_budget(env, val):
+            env.ghost['bud'] = val
+
+        def on_call(env, call, f=f, gate=gate):
+            looked = Inliner.value_of(env, call)
+            if looked is not None:
+                return looked
+            is_self = isinstance(call.func, ast.Attribute) and dotted(call.func.value) == 'self'
+            if w.consuming(f, call):
+                raw = (gate and isinstance(call.func, ast.Name) and call.func.id == gate[1]) or w.raw_method(call.func) in CONTRACT
+                if raw:
+                    arg = env.eval(call.args[0]) if len(call.args) == 1 and not call.keywords else None
+                else:
+                    t = w._callee(f, call)
+                    arg = None
+                    if isinstance(t, Func) and _hands_size_on(w, t):
+                        arg = _bind(p, t, call, _size_param(w, t), env)
+                    for a in list(call.args) + [k.value for k in call.keywords]:
+                        env.eval(a)
+                res = fresh('result of ' + short(call, 40))
+                env.kind[res] = 'seq'
+                env.ghost['creads'] = env.ghost.get('creads', ()) + ((call, arg, res),)
+                if not raw:
+                    env.havoc([BUDGET], 'after ' + short(call, 30))         # the callee accounts for itself
+                    env.kind[env.vars[BUDGET].lone()] = 'nat'
+                    set_budget(env, env.vars[BUDGET])
+                return Lin.atom(res)
+            if is_self:
+                t = w.cls.methods.get(call.func.attr)
+                if t is not None and t.qual in at_callers:
+                    v.unknown('%s: `%s` writes the budget and could not be looked through' % (f.qual, short(call, 40)))
+                env.havoc([BUDGET], 'after ' + short(call, 30))
+                env.kind[env.vars[BUDGET].lone()] = 'nat'
+                set_budget(env, env.vars[BUDGET])
+            return None
+
+        unk, bad = [], []
+
+        def judge(env, start, steps, cname, f=f, cfg=cfg, is_reader=is_reader, sp=sp, unk=unk, bad=bad):
+            cur = env.eval(_BUDGET_E)
+            prev = env.ghost.get('bud')
+            node = env.ghost.get('at')
+            if not isinstance(cur, Lin) or not isinstance(prev, Lin):
+                if cur is not prev:
+                    unk.append('%s: the budget is given a non-numeric value' % f.qual)
+                    set_budget(env, cur)
+                return
+            if Env.same(cur, prev):
+                return
+            set_budget(env, cur)
+            if env.prove_eq(cur, prev):
+                return
+            cons = node.ast if node is not None and node.kind == 'stmt' else BUDGET + ' written'
+            if not cur.is_const:
+                if not is_reader:
+                    unk.append('%s: `%s` changes the budget in a method that performs no read of its own' % (f.qual, short(cons, 50) if not isinstance(cons, str) else cons))
+                return              # a deduction in a method that reads: judged above against what the read returned
+            forced.add(f.qual)
+            if cur.c != 0:
+                unk.append('%s: the budget is forced to the constant %d' % (f.qual, cur.c))
+                return
+            reads = env.ghost.get('creads', ())
+
+            def may_be_zero(arg):
+                if arg is NONE or (isinstance(arg, Lin) and arg.lone() is not None and env.is_none.get(arg.lone()) is True):
+                    return False            # "everything that is left"
+                return not isinstance(arg, Lin) or env.fork().add_eq(arg, 0)
+
+            def excluded_or_idle(arg):
+                # a request for 0 bytes is excluded by the path facts, or it can only happen with the budget at 0 already
+                if not may_be_zero(arg):
+                    return True
+                if not isinstance(arg, Lin):
+                    return False
+                zero = env.fork()
+                zero.add_eq(arg, 0)
+                return zero.prove_eq(cur, prev)
+
+            if any(env.prove_eq(Lin.atom(('len', res)), 0) and excluded_or_idle(arg) for _c, arg, res in reads):
+                v.note(f, 'forced end of stream', what, True)
+                return
+            if start == cfg.entry and all(isinstance(arg, Lin) and env.prove_eq(arg, 0) for _c, arg, _r in reads):
+                if reads:
+                    msg = ('for %s %s the budget is set to 0 after `%s` although that read was asked for 0 bytes: its empty result says '
+                           'nothing about the end of the body' % (sp or 'size', cname, short(reads[-1][0], 50)))
+                    rw = ('%s(0) on a fresh stream returns b"" and flips eof to True with the whole body unread; every later read / readline / '
+                          'iteration returns nothing' % f.name)
+                else:
+                    msg = 'the budget is set to 0 on a path that has not read anything from the stream'
+                    rw = '%s() on a fresh stream: eof becomes True with the whole body unread; every later read returns nothing' % f.name
+                bad.append(cons)
+                v.note(f, 'forced end of stream', what, False, cons, msg, describe_path(cfg, [st[0] for st in steps]), rw)
+                return
+            unk.append('%s: cannot tell whether a read that was asked for more than 0 bytes came back empty before `%s`'
+                      % (f.qual, short(cons, 50) if not isinstance(cons, str) else cons))
+
+        def edge_ok(a, b, l, cfg=cfg):
+            # (a store followed by an explicit `raise` is a store all the same)
+            return l != 'exc' or cfg.node(b).kind == 'handler' or isinstance(getattr(cfg.node(a), 'ast', None), ast.Raise)
+
+        segs = list(segments(cfg, edge_ok=edge_ok))
+        # acyclic segments between cut points, plus every "first iteration" path entry -> loop head -> next cut point
+        # (a genuine path from the entry: only such a path can show that NO read precedes a store)
+        paths = [(s0, st) for s0, st, _e in segs]
+        paths += [(cfg.entry, pst + sst) for (ps, pst, pe) in segs if ps == cfg.entry and pe in heads for (ss, sst, _se) in segs if ss == pe]
+        cells = CELLS if sp else [('(no size parameter)', None)]
+        for cname, cset in cells:
+            for start, steps in paths:
+                env = Env(on_call)
+                rem = env.declare(BUDGET, 'nat')
+                if sp is not None:
+                    s = env.var(sp)
+                    if cname != 'is None':
+                        env.is_none[s.lone()] = False
+                    if not cset(env, s, rem):
+                        continue
+                set_budget(env, rem)
+
+                def on_node(e, n, label, start=start, steps=steps, cname=cname):
+                    judge(e, start, steps, cname)
+                    e.ghost['at'] = n
+
+                for e in run_steps_inl(env, cfg, steps, w.inliner, on_node=on_node, rewrite=_norm_test):
+                    judge(e, start, steps, cname)
+        if not bad:
+            for u in unk:
+                v.unknown(u)
+    for q in w.inliner.used:
+        run.use(p.func(q))
+    run.ok('the budget is written only by the constructor and by methods whose every write is judged (accounted deduction or proven end of stream)',
+           p.cls(WSGI).loc() if hasattr(p.cls(WSGI), 'loc') else WSGI, 'budget writers: %s' % (', '.join(sorted(swept)) or '(none)'))
+
+
+# ---------------------------------------------------------------------------
 # ASGI
 # ---------------------------------------------------------------------------
 
@@ -787,6 +1031,9 @@ def r4_conservation(run):
         f = run.project.func('%s.%s' % (ASGI, name))
         asgi_loops(run, v, f, mode='conservation')
         asgi_positions(run, v, f)
+    run.assume('C07 R4: nothing else operates on the stream while its body iterator is suspended at a `yield` (documented exclusive use)')
+    for name in ('exhaust', 'readall', '_iter_content'):
+        asgi_drained(run, v, run.project.func('%s.%s' % (ASGI, name)))
     asgi_initial_position(run, v)
     v.flush()
 
